@@ -900,4 +900,54 @@ func ruleSetQueued(r *Report) {
 		}
 		h.Check(queues && !reads, n, r.P.Pos(fn.Pos()), "queues Put(value), reads nothing", "the Set accessor does not queue its argument as a Put operation, or consults the stored value when it is issued (earlier writes of the same transaction are not visible there: the write can be skipped wrongly)")
 	}
+	// Row.Set<K>(column, value) hands its value on: to an accessor's Set, or to a Buffer.Put* with
+	// operation Put (siblings of one another: a setter that does nothing compiles and no test of
+	// another kind notices)
+	var rows []*ssa.Function
+	for fn := range r.P.modFunc {
+		if fn.Parent() != nil || fn.Synthetic != "" || len(fn.Params) != 3 {
+			continue
+		}
+		rn := recvNamed(fn)
+		if rn == nil || rn.Obj().Name() != "Row" || !strings.HasPrefix(fn.Name(), "Set") {
+			continue
+		}
+		switch fn.Name() {
+		case "SetKey", "SetTTL", "SetMany", "SetRecord":
+			continue // C12.paths, C17.write; SetMany/SetRecord take no plain value
+		}
+		rows = append(rows, fn)
+	}
+	sort.Slice(rows, func(i, j int) bool { return fnName(rows[i]) < fnName(rows[j]) })
+	for _, fn := range rows {
+		ok := false
+		deepVisitE(fn, func(ins, _ ssa.Instruction, env *venv) {
+			cc, _, _ := callCommon(ins)
+			if cc == nil {
+				return
+			}
+			fromValue := func(v ssa.Value) bool {
+				return dependsOn(v, func(z ssa.Value) bool {
+					n, _ := normE(z, env, false)
+					return n == ssa.Value(fn.Params[2]) || z == ssa.Value(fn.Params[2])
+				}, 6)
+			}
+			short := calleeShort(cc)
+			switch {
+			case isBufferPut(short) || short == "(*commit.Buffer).PutAny" || short == "(*commit.Buffer).PutBool":
+				for _, a := range cc.Args[1:] {
+					if fromValue(a) {
+						ok = true
+					}
+				}
+			default:
+				if sc := cc.StaticCallee(); sc != nil && sc.Name() == "Set" && len(cc.Args) >= 2 {
+					if rn := recvNamed(sc); rn != nil && strings.HasPrefix(rn.Obj().Name(), "rw") && fromValue(cc.Args[1]) {
+						ok = true
+					}
+				}
+			}
+		})
+		h.Check(ok, fnName(fn), r.P.Pos(fn.Pos()), "hands its value to the accessor's Set", "the row setter does not hand its value to the column accessor's Set (or to the buffer): the write is dropped")
+	}
 }
